@@ -6,6 +6,7 @@ import (
 	"go/token"
 	"go/types"
 	"sort"
+	"strconv"
 	"strings"
 
 	"golang.org/x/tools/go/packages"
@@ -35,6 +36,7 @@ func checkC14(c *Ctx, r *Report) {
 	renderOneD(c, r)
 	renderMargins(c, r)
 	checkMarginNonNegative(c, r)
+	checkQRMarginHint(c, r)
 	checkWriterStateless(c, r)
 	checkWholeOps(c, r) // SetRegion's own bit arithmetic (same obligations as under C16)
 	r.Note("not decided: that sampling block centres returns the module matrix is a consequence of these terms plus SetRegion's contract")
@@ -646,4 +648,107 @@ func checkMarginNonNegative(c *Ctx, r *Report) {
 		}
 		r.Check(bad == "", "M-MARGIN", key, c.pos(f.Pos()), bad)
 	}
+}
+
+// R-MARGIN (QR hint handling): the quiet zone that reaches the renderer
+func checkQRMarginHint(c *Ctx, r *Report) {
+	r.Rule("R-MARGINHINT", "QRCodeWriter.Encode, folded with the symbol encoder and the renderer replaced by recorders, hands renderResult a quiet zone of 4 modules when no MARGIN hint is given and exactly the hinted value otherwise - for the values 0, 1, 2, 4, 7, 20 given as an int and as a decimal string (an explicit 0 is a quiet zone of 0 modules) - together with the requested width and height", 1)
+	fd, p := c.funcDeclOf("qrcode", "QRCodeWriter.Encode")
+	key := "qrcode.QRCodeWriter.Encode/margin"
+	if fd == nil {
+		r.AnchorLost("R-MARGINHINT", key, "method not found")
+		return
+	}
+	r.Analysed(key)
+	mk, ok1 := constValIn(c, "", "EncodeHintType_MARGIN")
+	fq, ok2 := constValIn(c, "", "BarcodeFormat_QR_CODE")
+	if !ok1 || !ok2 {
+		r.Undecided("R-MARGINHINT", key, c.pos(fd.Pos()), "EncodeHintType_MARGIN / BarcodeFormat_QR_CODE are not constants")
+		return
+	}
+	type tc struct {
+		hint *Val
+		want int64
+		desc string
+	}
+	cases := []tc{{nil, 4, "no hint"}}
+	for _, m := range []int64{0, 1, 2, 4, 7, 20} {
+		cases = append(cases, tc{vint(m), m, fmt.Sprintf("MARGIN %d", m)}, tc{vstr(fmt.Sprint(m)), m, fmt.Sprintf("MARGIN %q", fmt.Sprint(m))})
+	}
+	type stop struct{}
+	bad := ""
+	for _, cs := range cases {
+		hints := &Val{K: VNil}
+		if cs.hint != nil {
+			hints = &Val{K: VStruct, Fields: map[string]*Val{fmt.Sprint(mk): cs.hint}}
+		}
+		var got []int64
+		h := &rpf{unroll: 100}
+		h.assertHook = func(rr *rpf, ta *ast.TypeAssertExpr, v *Val) (bool, bool) {
+			tn := types.ExprString(ta.Type)
+			switch {
+			case tn == "int":
+				return v.K == VInt, true
+			case tn == "string":
+				return v.K == VStr, true
+			}
+			return false, true
+		}
+		h.callHook = func(rr *rpf, call *ast.CallExpr, callee types.Object) (*Val, bool) {
+			return errCtorHook(rr, call, callee)
+		}
+		h.multiHook = func(call *ast.CallExpr, callee types.Object) ([]*Val, bool) {
+			fn, ok := callee.(*types.Func)
+			if !ok {
+				return nil, false
+			}
+			switch fn.Name() {
+			case "Encoder_encode":
+				return []*Val{{K: VStruct, Ptr: true, Fields: map[string]*Val{}}, {K: VNil}}, true
+			case "Atoi":
+				s := rpfCurrent.expr(call.Args[0])
+				if s.K == VStr {
+					if n, err := strconv.Atoi(s.S); err == nil {
+						return []*Val{vint(int64(n)), {K: VNil}}, true
+					}
+					return []*Val{vint(0), vstr("error")}, true
+				}
+			case "renderResult":
+				for _, a := range call.Args[1:] {
+					v := rpfCurrent.expr(a)
+					if v.K != VInt {
+						rpfFail("renderResult is given a non-constant argument")
+					}
+					got = append(got, v.I)
+				}
+				panic(stop{})
+			}
+			return nil, false
+		}
+		var err error
+		func() {
+			defer func() {
+				if x := recover(); x != nil {
+					if _, ok := x.(stop); ok {
+						return
+					}
+					panic(x)
+				}
+			}()
+			_, err = c.rpfCall(fd, p, []*Val{vstr("A"), vint(fq), vint(100), vint(90), hints}, h)
+		}()
+		if err != nil {
+			bad = "?" + cs.desc + ": " + err.Error()
+			break
+		}
+		if len(got) != 3 {
+			bad = cs.desc + ": the renderer is not reached"
+			break
+		}
+		if got[0] != 100 || got[1] != 90 || got[2] != cs.want {
+			bad = fmt.Sprintf("%s, request 100x90: the renderer is given width %d, height %d and a quiet zone of %d modules; expected 100, 90, %d", cs.desc, got[0], got[1], got[2], cs.want)
+			break
+		}
+	}
+	reportFold(r, c, "R-MARGINHINT", key, fd.Pos(), bad)
 }
